@@ -19,15 +19,15 @@ import (
 // is reopened; Load(ctx1) runs with every block read gated and may be cancelled at any step; then an
 // uncancelled Load must make everything visible.
 type LoadCancelWorld struct {
-	net     *sim.Net
-	inst    *sim.Instance
-	store   iface.Store
-	want    []string // payloads that must be listed
-	names   map[string]string
-	ctx1    context.Context
-	cancel1 context.CancelFunc
-	first   *asyncCall
-	final   *asyncCall
+	net                                 *sim.Net
+	inst                                *sim.Instance
+	store                               iface.Store
+	want                                []string // payloads that must be listed
+	names                               map[string]string
+	ctx1                                context.Context
+	cancel1                             context.CancelFunc
+	first                               *asyncCall
+	final                               *asyncCall
 	cancelled, issuedFirst, issuedFinal bool
 }
 
@@ -143,7 +143,7 @@ func (w *LoadCancelWorld) Do(a string) error {
 	return sim.Quiesce()
 }
 
-func (w *LoadCancelWorld) Key() string                            { return "" }
+func (w *LoadCancelWorld) Key() string                             { return "" }
 func (w *LoadCancelWorld) Check(hist []string) []explore.Violation { return nil }
 
 func (w *LoadCancelWorld) Final() []explore.Violation {
@@ -207,6 +207,7 @@ func runC11Load(c *explore.Ctx, arg string) {
 		return
 	}
 	d := &explore.ScheduleDFS{
+		Settle:   settle,
 		Scenario: c.Spec.Unit.Name,
 		New:      func() (explore.World, error) { return NewLoadCancelWorld(a.Shape) },
 		Bound:    a.Bound, Horizon: 200, Stats: c.Stats, Journal: c.JournalHist, Expired: c.Expired,
